@@ -44,9 +44,10 @@ let run_dirty () =
   let (d, _) = RuleDecision.check_regex RuleDecision.dirty_vst p f in
   out_decision (Some d)
 
-(* frag: units:str -> <in_fragment 0/1> <recognises 0/1>   (the recogniser of the grammar fragment, Regex/FragParser.v) *)
+(* frag: units:str -> <in_fragment 0/1> <recognises without u 0/1> <recognises with u 0/1>
+   (the recogniser of the grammar fragment, Regex/FragParser.v) *)
 let run_frag () =
   let s = read_str () in
-  out_bool (FragParser.in_fragment s); out_bool (FragParser.recognises s)
+  out_bool (FragParser.in_fragment s); out_bool (FragParser.recognises false s); out_bool (FragParser.recognises true s)
 
 let () = main [("seq", run_seq); ("rule", run_rule); ("flags", run_flags); ("dirty", run_dirty); ("frag", run_frag)]
